@@ -261,6 +261,25 @@ class Interp:
                     break
             if not broke and st.orelse:
                 self.run_block(st.orelse)
+        elif isinstance(st, ast.Match):
+            subject = self.ev(st.subject)
+
+            def matches(pat):
+                if isinstance(pat, ast.MatchValue):
+                    return subject == self.ev(pat.value)
+                if isinstance(pat, ast.MatchSingleton):
+                    return subject is pat.value
+                if isinstance(pat, ast.MatchOr):
+                    return any(matches(p_) for p_ in pat.patterns)
+                if isinstance(pat, ast.MatchAs) and pat.pattern is None:
+                    if pat.name:
+                        self.env[pat.name] = subject
+                    return True
+                raise Unsupported('match pattern ' + type(pat).__name__)
+            for case in st.cases:
+                if matches(case.pattern) and (case.guard is None or self.ev(case.guard)):
+                    self.run_block(case.body)
+                    break
         elif isinstance(st, ast.Break):
             raise _Break()
         elif isinstance(st, ast.Continue):
